@@ -197,6 +197,11 @@ func (c *Client) begin(call *Call) (Outcome, error) {
 		}
 	}
 	switch out {
+	case NotFound:
+		if call.Write {
+			s.logWrite(&WriteRecord{Call: *call, Err: "injected not found"})
+		}
+		return out, kerrors.NewNotFound(gr(call.Key), call.Key.Name)
 	case ErrBefore:
 		if call.Write {
 			s.logWrite(&WriteRecord{Call: *call, Err: "injected error before"})
